@@ -37,7 +37,7 @@ CURATED = LONG_BLANKS + ['', ' ', '  ', 'a b', "it's", '"q"', '$(HOME)', '${HOME
            'a:~', 'a:~/b', '~:~', '/opt/p:~/p', 'x=~', 'x=~/y', 'a:~root', '~+', '~-', 'a:~+/b',
            '\U0001f600 smile', 'x y']
 
-CONTEXTS = ['cmd_arg', 'cmd_env', 'cmd_str_envref', 'step_str_envref', 'cmd_word', 'cmds_multi', 'step_arg', 'step_jbos',
+CONTEXTS = ['cmd_arg', 'cmd_arg_reused_list', 'test_reused_list', 'cmd_env', 'cmd_str_envref', 'step_str_envref', 'cmd_word', 'cmds_multi', 'step_arg', 'step_jbos',
             'test_arg', 'test_env', 'driver_arg', 'driver_child', 'driver_child_wrap',
             'driver_nested', 'compile_opt', 'compile_opt_str', 'define_value',
             'link_opt', 'lib_opt', 'link_opt_str', 'include_path', 'desc_step', 'symlink_src', 'symlink_gen',
@@ -182,6 +182,16 @@ def render_script(slots, script_slots=()):
             L.append("c%d = command('c%d', cmd=['vrec', %s, %s, 'after'])" % (i, i, _r(mark), _r(s)))
             cmd_targets.append('c%d' % i)
             exp[i] = {'kind': 'argv', 'argv': ['vrec', mark, s, 'after']}
+        elif ctx == 'cmd_arg_reused_list':
+            # the script keeps working with ITS list and dict after the call: the step got the
+            # words and values they held when it was declared
+            L.append("l%d = ['vrec', %s, %s, 'after']" % (i, _r(mark), _r(s)))
+            L.append("e%d = {'VF_E': %s}" % (i, _r(s)))
+            L.append("c%d = command('c%d', cmd=l%d, environment=e%d)" % (i, i, i, i))
+            L.append("l%d[2] = 'changed after the call'; l%d.append('more'); "
+                     "e%d['VF_E'] = 'changed after the call'" % (i, i, i))
+            cmd_targets.append('c%d' % i)
+            exp[i] = {'kind': 'argv', 'argv': ['vrec', mark, s, 'after'], 'env': {'VF_E': s}}
         elif ctx == 'cmd_env':
             L.append("c%d = command('c%d', cmd=['vrec', %s], environment={'VF_E': %s})"
                      % (i, i, _r(mark), _r(s)))
@@ -235,6 +245,14 @@ def render_script(slots, script_slots=()):
             L.append("test(['vrec', %s, %s])" % (_r(mark), _r(s)))
             have_tests = True
             exp[i] = {'kind': 'argv', 'argv': ['vrec', mark, s]}
+        elif ctx == 'test_reused_list':
+            L.append("l%d = ['vrec', %s, %s]" % (i, _r(mark), _r(s)))
+            L.append("e%d = {'VF_E': %s}" % (i, _r(s)))
+            L.append("test(l%d, environment=e%d)" % (i, i))
+            L.append("l%d[2] = 'changed after the call'; l%d.append('more'); "
+                     "e%d['VF_E'] = 'changed after the call'" % (i, i, i))
+            have_tests = True
+            exp[i] = {'kind': 'argv', 'argv': ['vrec', mark, s], 'env': {'VF_E': s}}
         elif ctx == 'test_env':
             L.append("test(['vrec', %s], environment={'VF_E': %s})" % (_r(mark), _r(s)))
             have_tests = True
